@@ -14,7 +14,7 @@ fn describe(w: &World, ops: &[Op], mtu: u16, iss: [u32; 2], simultaneous: bool) 
         "read": [w.sides[0].read, w.sides[1].read],
         "final_states": [format!("{:?}", w.state(0)), format!("{:?}", w.state(1))],
         "fair_rounds_used": w.stats.fair_rounds_used,
-        "last_trace_events": w.trace.iter().rev().take(80).rev().collect::<Vec<_>>(),
+        "last_trace_events": w.trace.iter().rev().take(std::env::var("VERIF_TRACE_EVENTS").ok().and_then(|v| v.parse().ok()).unwrap_or(80)).rev().collect::<Vec<_>>(),
     })
 }
 
@@ -62,7 +62,7 @@ impl Check for ReliableStream {
         let salts = [e.u8(), e.u8()];
         let mut w = World::new(mtu, iss, simultaneous, salts)?;
         w.record_trace = ctx.want_desc;
-        let cfg = GenCfg { closes: false, old_syn: false, inject: false, max_ops: 150, byte_budget: 400_000, exclude_close_with_unsent: true };
+        let cfg = GenCfg { closes: false, old_syn: false, inject: false, max_ops: 150, byte_budget: 400_000, exclude_close_with_unsent: true, legacy_layout: ctx.legacy_layout };
         let nops = 5 + e.choose(cfg.max_ops - 4);
         let mut left = cfg.byte_budget;
         let mut excluded = 0;
@@ -166,9 +166,10 @@ impl Check for OpenClose {
         let simultaneous = e.chance(1, 4);
         let salts = [e.u8(), e.u8()];
         let mut w = World::new(mtu, iss, simultaneous, salts)?;
+        w.record_trace = ctx.want_desc;
         // the exclusion is lifted in 1 of 16 cases so that the open known finding stays observable
         let lift = e.chance(1, 16);
-        let cfg = GenCfg { closes: true, old_syn: !simultaneous, inject: false, max_ops: 120, byte_budget: 200_000, exclude_close_with_unsent: !lift };
+        let cfg = GenCfg { closes: true, old_syn: !simultaneous, inject: false, max_ops: 120, byte_budget: 200_000, exclude_close_with_unsent: !lift, legacy_layout: ctx.legacy_layout };
         let nops = 5 + e.choose(cfg.max_ops - 4);
         // in 3/8 of the cases a legitimate prelude first drives the connection to a later state, so that closes,
         // faults and old duplicates also meet FIN-WAIT-2, CLOSING, LAST-ACK and TIME-WAIT often
@@ -317,7 +318,7 @@ impl Check for IsnIndependence {
         let mut w2 = World::new(mtu, iss2, simultaneous, salts)?;
         w1.record_trace = true;
         w2.record_trace = true;
-        let cfg = GenCfg { closes: with_close, old_syn: with_close && !simultaneous, inject: false, max_ops: 100, byte_budget: 150_000, exclude_close_with_unsent: false };
+        let cfg = GenCfg { closes: with_close, old_syn: with_close && !simultaneous, inject: false, max_ops: 100, byte_budget: 150_000, exclude_close_with_unsent: false, legacy_layout: ctx.legacy_layout };
         let nops = 5 + e.choose(cfg.max_ops - 4);
         let mut left = cfg.byte_budget;
         let mut excluded = 0;
@@ -431,7 +432,8 @@ impl Check for HostileSegments {
         let salts = [e.u8(), e.u8()];
         let mut w = World::new(mtu, iss, simultaneous, salts)?;
         w.check_transitions = false; // forged segments may take any receive edge; C03 owns that oracle
-        let cfg = GenCfg { closes: true, old_syn: false, inject: true, max_ops: 120, byte_budget: 200_000, exclude_close_with_unsent: true };
+        w.record_trace = ctx.want_desc;
+        let cfg = GenCfg { closes: true, old_syn: false, inject: true, max_ops: 120, byte_budget: 200_000, exclude_close_with_unsent: true, legacy_layout: ctx.legacy_layout };
         let nops = 5 + e.choose(cfg.max_ops - 4);
         // prelude: drive the connection with legitimate operations to a chosen state before the forgeries start,
         // otherwise most forged segments meet the handshake states only
